@@ -24,6 +24,8 @@
 From Stackage Require Import Base Generated StackImpl Values JVal AliasSpec Alias
   AliasProofs AliasProofs2 AliasProofs3 AliasProofs4.
 From Stackage Require Render RenderSpec.
+From Stackage Require DerefTie.
+From Coq Require Import String.
 Open Scope Z_scope.
 
 (* ---- convert_spec ---------------------------------------------------------- *)
@@ -301,3 +303,15 @@ Example c12_defrag_transfer_run :
              (VStack AliasPtr (cfg0 6) [VLeaf (GInt 0 9)])
   = Ok (VStack AliasPtr (cfg0 6) [VLeaf (GInt 0 9); VLeaf (GInt 0 1); VStack AliasVal (cfg0 2) []], true).
 Proof. vm_compute. split; reflexivity. Qed.
+
+(* "a non-nil pointer to one", at ANY depth: the models do not tell pointer
+   depths apart (AliasPtr), and that is what the source does - one iteration
+   of derefPtr's loop, regenerated from misc.go (the loop must be the bare
+   "for"), strips one level while the type is a pointer and nothing else ends
+   the loop, so a chain of n pointers is followed to its end for every n *)
+Theorem c12_pointer_chase_has_no_depth_limit :
+  (forall n : nat, DerefTie.chase n = O) /\
+  Generated.g_derefPtr_body_tails =
+    ["t = t.Elem(); if v.IsValid() { v = v.Elem() }; continue"%string; "break"%string].
+Proof. split; [exact DerefTie.chase_strips_every_level|exact DerefTie.deref_cut_tails]. Qed.
+Print Assumptions c12_pointer_chase_has_no_depth_limit.
